@@ -12,14 +12,14 @@ cp $src/patch.diff $src/demo_test.go $src/meta.json $out/ 2>/dev/null
 log=$out/confirm.log; : > $log
 ( cd $wt && cp $src/demo_test.go $demo_dir/zz_seed_demo_test.go
   echo "== demo on unchanged code (must pass)" >> $log
-  go test -count=1 -vet=off $demo_dir/ >> $log 2>&1; echo "exit=$?" >> $log
+  go test -count=1 -vet=off ./$demo_dir/ >> $log 2>&1; echo "exit=$?" >> $log
   rm $demo_dir/zz_seed_demo_test.go
   git apply $src/patch.diff || { echo "PATCH DOES NOT APPLY" >> $log; exit 3; }
   echo "== build + existing suite with change (must pass)" >> $log
   go build ./... >> $log 2>&1 && go test -count=1 -vet=off ./... >> $log 2>&1; echo "exit=$?" >> $log
   cp $src/demo_test.go $demo_dir/zz_seed_demo_test.go
   echo "== demo with change (must fail)" >> $log
-  go test -count=1 -vet=off $demo_dir/ 2>&1 | tail -15 >> $log; echo "exit=${PIPESTATUS[0]}" >> $log
+  go test -count=1 -vet=off ./$demo_dir/ 2>&1 | tail -15 >> $log; echo "exit=${PIPESTATUS[0]}" >> $log
 )
 git -C /repo worktree remove --force $wt
 grep "exit=" $log | tr '\n' ' '; echo
